@@ -505,6 +505,11 @@ def h3_protocol(ctx, rid='H3'):
         ctx.fn(b)
         pushes = [(bid, t) for bid, t in b.calls(r'Vec::<.*>::push$') if 'UiTokenCollection.tokens' in ''.join(x[3] for x in walk(b.expr(t['args'][0])) if x[0] == 'field' and len(x) > 3)]
         if not pushes:
+            # delegation: the function hands the span to the other appender (`add`), whose own push is checked above / below
+            deleg = [(bid, t) for bid, t in b.calls(r'^token::ui_token::UiTokenCollection::(add|add_from_regex_match)$') if not t['callee']['path'].endswith('::' + name)]
+            if deleg:
+                ctx.ok(rid, '%s appends through %s (which checks the collision itself)' % (fn_key(b.path), fn_key(deleg[0][1]['callee']['path'])), 'guard-dom', site=deleg[0][1]['loc'])
+                continue
             raise AnchorLost('%s no longer pushes into tokens' % fn_key(b.path))
         for bid, t in pushes:
             conds = [(render(d), v) for (_, d, v) in b.conditions(bid)]
